@@ -32,9 +32,12 @@ pub fn write(
                 // from the file. If there is no note segment with the build id in
                 // the program headers, we can't get to the note section if the section header
                 // table isn't loaded.
-                if let Some(path) = &dumper.mappings[map_idx].name {
+                let name = &dumper.mappings[map_idx].name;
+                if let Some(path) = name {
                     let path = std::path::Path::new(&path);
-                    if path.exists() {
+                    // Never open mapped files that live under /dev (see
+                    // `is_mapped_file_safe_to_open`), not even to look for a build id.
+                    if MappingInfo::is_mapped_file_safe_to_open(name) && path.exists() {
                         log::debug!("failed to get build id from process memory ({e}), attempting to retrieve from {}", path.display());
                         return BuildId::read_from_file(path)
                             .map_err(errors::DumperError::ModuleReaderError);
